@@ -125,7 +125,7 @@ def run_harness(binary, args, timeout=None, env=None):
         log(p.stdout[-4000:])
         raise HarnessError("harness %s exited %s" % (" ".join(cmd), p.returncode))
     try:
-        r = json.load(open(out))
+        r = json.load(open(out, errors="replace"))
     finally:
         os.unlink(out)
     r["args"] = " ".join(str(a) for a in args)
